@@ -195,6 +195,12 @@ class FakeKernel:
                                      # the main thread and its blocking read(): the Python-level handler cannot run
                                      # until the read returns (or another signal interrupts it)
         self.allow_late = self.sched.get("allow_late", False)
+        # job control: a running task process may be stopped (SIGSTOP/SIGTSTP from outside) and continued later; the parent
+        # gets SIGCHLD for both (CPython installs handlers without SA_NOCLDSTOP) and waitpid reports the stop only when
+        # asked with WUNTRACED
+        self.allow_stop = self.sched.get("allow_stop", False)
+        self.stop_unreported = set()
+        self.stops_done = 0
         if self.sched.get("unrelated"):
             # a child of this process that Conductor did not start (exits some time during the run)
             self.proc[60001] = "running"
@@ -262,13 +268,32 @@ class FakeKernel:
             desc = {"sig": status & 0x7F} if status & 0x7F else {"code": status >> 8}
         self.proc[pid] = "zombie"
         self.status[pid] = status
+        self._raise_sigchld()
+        self.ev(e="Exit", pid=pid, t=t, **desc)
+
+    def _raise_sigchld(self):
         self.pending = True
         if self.wakeup_fd >= 0 and callable(self.handlers.get(signal.SIGCHLD)):
             try:
                 os.write(self.wakeup_fd, bytes([int(signal.SIGCHLD)]))     # what CPython's C-level handler does
             except (BlockingIOError, OSError):
                 pass
-        self.ev(e="Exit", pid=pid, t=t, **desc)
+
+    def stopped(self):
+        return sorted(p for p, s in self.proc.items() if s == "stopped")
+
+    def do_stop(self, pid):
+        self.proc[pid] = "stopped"
+        self.stop_unreported.add(pid)
+        self.stops_done += 1
+        self._raise_sigchld()
+        self.ev(e="Stop", pid=pid, t=self.task_of[pid])
+
+    def do_cont(self, pid):
+        self.proc[pid] = "running"
+        self.stop_unreported.discard(pid)
+        self._raise_sigchld()
+        self.ev(e="Cont", pid=pid, t=self.task_of[pid])
 
     def deliver(self):
         self.pending = False
@@ -291,6 +316,10 @@ class FakeKernel:
             if self.env_actions >= self.max_env_actions:
                 break
             opts = ["none"] + [("exit", p) for p in self.running()] + (["deliver"] if self.pending else [])
+            if self.allow_stop:
+                if self.stops_done < 2:
+                    opts += [("stop", p) for p in self.running()]
+                opts += [("cont", p) for p in self.stopped()]
             if len(opts) == 1:
                 break
             i = self.chooser.env_action(opts, label)
@@ -300,6 +329,10 @@ class FakeKernel:
             o = opts[i]
             if o == "deliver":
                 self.deliver()
+            elif o[0] == "stop":
+                self.do_stop(o[1])
+            elif o[0] == "cont":
+                self.do_cont(o[1])
             else:
                 self.do_exit(o[1])
         if force_deliver and self.pending:
@@ -317,6 +350,11 @@ class FakeKernel:
             if self.late:
                 # a further signal interrupts the blocked read (EINTR): now the Python-level handler runs for all of them
                 self.deliver()
+            return True
+        st = self.stopped()
+        if st:
+            # whoever stopped the task eventually continues it
+            self.do_cont(st[0])
             return True
         return False
 
@@ -373,7 +411,11 @@ class FakeKernel:
                     self.proc[p] = "reaped"
                     self.ev(e="Reap", pid=p, t=self.task_of[p], by="handler" if self.in_handler else "any")
                     return p, self.status[p]
-                if self.running():
+                if (flags & os.WUNTRACED) and self.stop_unreported:
+                    p = min(self.stop_unreported)
+                    self.stop_unreported.discard(p)
+                    return p, (int(signal.SIGSTOP) << 8) | 0x7F
+                if self.running() or self.stopped():
                     if flags & os.WNOHANG:
                         return 0, 0
                     if not self.progress():
@@ -388,7 +430,10 @@ class FakeKernel:
                 self.proc[pid] = "reaped"
                 self.ev(e="Reap", pid=pid, t=self.task_of[pid], by="poll")
                 return pid, self.status[pid]
-            if s == "running":
+            if s == "stopped" and (flags & os.WUNTRACED) and pid in self.stop_unreported:
+                self.stop_unreported.discard(pid)
+                return pid, (int(signal.SIGSTOP) << 8) | 0x7F
+            if s in ("running", "stopped"):
                 if flags & os.WNOHANG:
                     return 0, 0
                 if not self.progress():
@@ -399,7 +444,7 @@ class FakeKernel:
 
     def getpgid(self, pid):
         if pid in self.proc:
-            if self.proc[pid] in ("running", "zombie"):
+            if self.proc[pid] in ("running", "zombie", "stopped"):
                 return pid
             raise ProcessLookupError(errno.ESRCH, "No such process")
         return self._getpgid(pid)
@@ -480,7 +525,7 @@ class FakeKernel:
                 self.abort_at += 1
             return
         self.aborted = True
-        live = sorted(p for p, s in self.proc.items() if s in ("running", "zombie"))
+        live = sorted(p for p, s in self.proc.items() if s in ("running", "zombie", "stopped"))
         # acts: what Conductor's main flow has visibly done (printed a line, read the SIGCHLD pipe, called waitpid) since the
         # most recent spawn - 0 means the signal arrived before the scheduler did anything with the new child
         self.ev(e="Abort", file=file, line=line, func=func, live=live, in_del=bool(self.in_del), acts=self.acts_since_spawn,
@@ -584,7 +629,7 @@ def run_cond(scn, root, chooser=None):
         kind = "ERROR"
     else:
         kind = "none"
-    live = sorted(p for p, s in fk.proc.items() if s in ("running", "zombie"))
+    live = sorted(p for p, s in fk.proc.items() if s in ("running", "zombie", "stopped"))
     fk.ev(e="Return", exit=status, exc=exc, stderr_kind=kind, failed=fk.failed_list, skipped=fk.skipped_list,
           banners=fk.banners, live=live, unreaped_tasks=[fk.task_of[p] for p in live])
     return {
